@@ -178,7 +178,7 @@ theorem encFloat_nonempty (b : Nat) : 0 < (encFloat b).length := by
   repeat' split
   all_goals first | exact encInt_nonempty _ | simp
 
-theorem enc_nonempty (v : Val) (e : Bytes) (h : enc v = .ok e) : 0 < e.length := by
+theorem enc_nonempty (d : Nat) (v : Val) (e : Bytes) (h : enc d v = .ok e) : 0 < e.length := by
   cases v with
   | null => simp [enc] at h; subst h; simp
   | bool b => simp [enc] at h; subst h; simp
@@ -194,7 +194,9 @@ theorem enc_nonempty (v : Val) (e : Bytes) (h : enc v = .ok e) : 0 < e.length :=
     simp only [enc] at h
     split at h
     · cases h
-    · injection h with h; subst h; simp [head]
+    · split at h
+      · cases h
+      · injection h with h; subst h; simp [head]
   | map es =>
     simp only [enc] at h
     split at h
@@ -203,22 +205,25 @@ theorem enc_nonempty (v : Val) (e : Bytes) (h : enc v = .ok e) : 0 < e.length :=
       · cases h
       · split at h
         · cases h
-        · injection h with h; subst h; simp [head]
+        · split at h
+          · cases h
+          · injection h with h; subst h; simp [head]
   | tag t v => simp [enc] at h
 
-theorem dec_consumes (f : Nat) (bs : Bytes) (v : Val) (r : Bytes) (h : dec f bs = .ok (v, r)) :
+theorem dec_consumes (f dp : Nat) (bs : Bytes) (v : Val) (r : Bytes) (h : dec f dp bs = .ok (v, r)) :
     r.length < bs.length := by
-  obtain ⟨e, he, hb⟩ := dec_canon f bs v r h
-  have := enc_nonempty v e he
+  obtain ⟨e, he, hb⟩ := dec_canon f dp bs v r h
+  have := enc_nonempty dp v e he
   rw [hb]; simp; omega
 
 /-- **fuel suffices.** With fuel above the input length the decoder never reports `fuel`. -/
-theorem dec_fueled : ∀ f, Fueled f (dec f) := by
+theorem dec_fueled : ∀ f dp, Fueled f (dec f dp) := by
   intro f
   induction f with
-  | zero => exact ⟨fun bs h => by omega, dec_consumes 0⟩
+  | zero => intro dp; exact ⟨fun bs h => by omega, dec_consumes 0 dp⟩
   | succ f ih =>
-    refine ⟨?_, dec_consumes (f + 1)⟩
+    intro dp
+    refine ⟨?_, dec_consumes (f + 1) dp⟩
     intro bs hb h
     cases bs with
     | nil => simp [dec] at h
@@ -260,9 +265,11 @@ theorem dec_fueled : ∀ f, Fueled f (dec f) := by
         · rename_i n r hr
           have hrl := readLen_suffix hr
           split at h
-          · rename_i e hi; injection h with h; subst h
-            exact (items_no_fuel ih n r (by omega)).1 hi
           · cases h
+          · split at h
+            · rename_i e hi; injection h with h; subst h
+              exact (items_no_fuel (ih (dp + 1)) n r (by omega)).1 hi
+            · cases h
       rw [if_neg hm4] at h
       by_cases hm5 : b0.toNat / 32 = 5
       · rw [if_pos hm5] at h
@@ -271,9 +278,11 @@ theorem dec_fueled : ∀ f, Fueled f (dec f) := by
         · rename_i n r hr
           have hrl := readLen_suffix hr
           split at h
-          · rename_i e hi; injection h with h; subst h
-            exact (entries_no_fuel ih n none r (by omega)).1 hi
           · cases h
+          · split at h
+            · rename_i e hi; injection h with h; subst h
+              exact (entries_no_fuel (ih (dp + 1)) n none r (by omega)).1 hi
+            · cases h
       rw [if_neg hm5] at h
       by_cases hm6 : b0.toNat / 32 = decTagMajor
       · rw [if_pos hm6] at h; cases h
@@ -295,7 +304,7 @@ theorem decode_no_fuel (bs : Bytes) : decode bs ≠ .error .fuel := by
   split at h
   · rename_i e he
     injection h with h; subst h
-    exact (dec_fueled (bs.length + 1)).1 bs (by omega) he
+    exact (dec_fueled (bs.length + 1) 0).1 bs (by omega) he
   · cases h
   · cases h
 
